@@ -1,6 +1,6 @@
 # ./check configuration for C02 (merged by mc/props.py)
 PROP = dict(
-    pkg=".", test="TestVerifC02", files=["mc/c02/*.go"], libs=["explore", "canon", "sim"],
+    pkg=".", test="TestVerifC02", files=["mc/c02/*.go"], libs=["explore", "canon", "sim", "wiremon"],
     engine="E2 simx", level="fault_enumeration", shards="ncpu", gomaxprocs=1,
     env={"GODEBUG": "randseednop=0,asyncpreemptoff=1"},
     deterministic=False, crash_is_violation=True,
@@ -9,7 +9,7 @@ PROP = dict(
     assumptions=["goroutine interleavings inside the connection are chosen by the Go runtime (GOMAXPROCS=1), not enumerated; oracles are schedule-independent",
                  "crypto/rand pinned per run with cryptotest.SetGlobalRandom; math/rand seeded",
                  "bounded liveness: every dial + echo must finish within 30 s of virtual time"],
-    level_text="Exhaustive enumeration, on real client and server endpoints in virtual time, of (built-in fingerprint x one-knob spec deviation x dial history on one reused spec value), (base x server configuration) and (base x every single fault on the first datagrams of either direction); every dial must complete the handshake, echo 2 kB both ways and stay error-free. Pairs of knobs and two-fault maps in the thorough tier.",
+    level_text="Exhaustive enumeration, on real client and server endpoints in virtual time, of (built-in fingerprint x one-knob spec deviation x dial history on one reused spec value), (base x server configuration) and (base x every single fault on the first datagrams of either direction); every dial must complete the handshake, echo 2 kB both ways and stay error-free. Pairs of knobs and two-fault maps in the thorough tier. Every execution is also read by the passive wire monitor (mc/lib/wiremon): each datagram either endpoint SENT is opened with independent packet protection (mc/lib/ref5, secrets from the TLS key log), its frames are parsed by an independent parser, and sender-side invariants are checked (packet numbers increase and stay decodable for what the sender knows to be acknowledged; ACK frames name only packets whose intact copy had arrived; retransmissions never change stream or CRYPTO bytes; data, stream counts and final sizes stay within the limits that had reached the sender, read from the ClientHello / EncryptedExtensions; frames fit their encryption level; 1-RTT packets use connection IDs the peer issued and the sender has not retired; nothing but CONNECTION_CLOSE after CONNECTION_CLOSE). What an endpoint can have received is over-approximated from fates and virtual times, so the monitor can miss but not invent a violation; exchanges with injected datagrams are not judged by it.",
     level_note="Trusted: simnet + synctest virtual time; the in-tree server as the standards-conformant peer; knob alphabet in mc/c02 (CID lengths, PN settings, tokens, frame/flight builders, per-datagram plans, UDP minimum sizes, parameter shuffling/suppression, ClientHello sizes spanning 1..4 Initial datagrams); the runtime goroutine schedule is not enumerated.",
     technique="exhaustive configuration x dial-history x single-fault enumeration on real endpoints in virtual time",
 )
